@@ -131,7 +131,8 @@ pub fn render_rsca(groups: &[Group], f: &Fmt, r: &mut Rng) -> String {
     let nl = f.nl();
     let mut s = String::new();
     for (gi, g) in groups.iter().enumerate() {
-        let untitled = gi == 0 && g.name.is_empty() && g.description.is_empty() && !g.rule.is_empty();
+        let prev_has_desc = gi > 0 && !groups[gi - 1].description.is_empty();
+        let untitled = (gi == 0 || prev_has_desc) && g.name.is_empty() && g.description.is_empty() && !g.rule.is_empty();
         if !untitled {
             s.push('@');
             if f.space_after_at {
@@ -344,12 +345,28 @@ pub fn maybe_untitled_first(groups: &mut Vec<Group>, d: &Data, r: &mut Rng) {
     }
 }
 
+/// `#` lines are also used as notes between rules: rule lines that follow a description
+/// without a new `@ title` are an untitled group of their own
+pub fn maybe_untitled_after_description(groups: &mut Vec<Group>, d: &Data, r: &mut Rng) {
+    if r.chance(1, 8) {
+        let with_desc: Vec<usize> = (0..groups.len()).filter(|&i| !groups[i].description.is_empty()).collect();
+        if with_desc.is_empty() {
+            return;
+        }
+        let at = *r.pick(&with_desc) + 1;
+        let nr = r.range(1, 2);
+        let rules = (0..nr).map(|_| safe_rule(d, r, false)).collect();
+        groups.insert(at, Group { name: String::new(), rule: rules, description: String::new() });
+    }
+}
+
 pub fn gen_model(d: &Data, r: &mut Rng) -> Model {
     let wild = r.chance(1, 4);
     let (into, from) = if r.chance(1, 2) { gen::gen_aliases(r) } else { (vec![], vec![]) };
     let words = gen_words(d, r);
     let mut rules = gen_groups(d, r, 4, wild);
     maybe_untitled_first(&mut rules, d, r);
+    maybe_untitled_after_description(&mut rules, d, r);
     Model { into, from, words, rules }
 }
 
